@@ -66,8 +66,12 @@ func causeClass(k string) string {
 		return "cancel"
 	case "err":
 		return "master-err"
-	case "fin", "rst", "zerolen", "badseq", "read-error":
+	case "fin", "rst", "zerolen", "badseq", "read-error", "fin-blocked", "rst-blocked":
 		return "transport"
+	case "err-blocked":
+		return "master-err"
+	case "eof-blocked":
+		return "eof"
 	case "short0", "cut", "inject-invalid":
 		return "gate-reject"
 	case "inject-rowsquery", "inject-intvar", "inject-rand":
